@@ -380,11 +380,20 @@ func init() {
 		Assumptions: []string{"secrets use a YAML-plain alphabet (no quoting needed)", "sections are compared through yaml.Marshal of the loaded structs plus the reflective secret walk"},
 		NumCases: func(tier string) int {
 			if tier == "thorough" {
-				return 20000
+				return 20000 + c11OverlapThorough
 			}
-			return 1500
+			return 1500 + c11OverlapQuick
 		},
-		Run:           runC11,
+		Run: func(w *core.WorkerCtx, idx int) *core.CaseResult {
+			n := 1500
+			if w.Tier == "thorough" {
+				n = 20000
+			}
+			if idx >= n {
+				return runC11Overlap(w, idx-n)
+			}
+			return runC11(w, idx)
+		},
 		MinNontrivial: 100,
 	})
 }
